@@ -34,6 +34,7 @@ HOSTILE_COMPS = ["..", ".", "", "/abs", "a/../../b", "x/y", "../../dest.bak"]
 def BOUNDS(tier):
     return {"versions": "v1 (single and multi file), v2, hybrid", "name": HOSTILE_NAMES, "path components": HOSTILE_COMPS,
             "positions": "torrent name; first component; middle component (each with a harmless file name last)",
+            "destination spellings": "absolute; '.', '..', '../dest', '../..' relative to suitable working directories",
             "sizes": "each in [1, 2P] (v2/hybrid: the file on the hostile path may also be empty), P = 16 KiB; two payload files",
             "outside": "hostile strings beyond the listed family; symlinks inside the destination"}
 
@@ -49,13 +50,19 @@ def jobs(tier):
                 out.append(("v%d.middle.%d" % (version, i), "job", dict(version=version, name="name", comps=["d", c, "f.bin"])))
     for i, nm in enumerate(HOSTILE_NAMES):
         out.append(("v1.single.name.%d" % i, "job", dict(version=1, name=nm, comps=None, single=True)))
+    # the destination itself spelled relatively ('.', '..', '../dest'): containment must not be judged on the spelling
+    for version in (1, 2, 3):
+        for dspell, cwd in ((".", "/jail/dest"), ("..", "/jail/dest/sub"), ("../dest", "/jail/cwd"), ("../..", "/jail/dest/sub/deeper")):
+            for nm, comps in (("..", None), ("name", ["..", "..", "f.bin"]), ("../../x", None)):
+                out.append(("v%d.dest-%s.%s" % (version, dspell.replace("/", "_"), (nm if comps is None else "comp").replace("/", "_")), "job",
+                            dict(version=version, name=nm, comps=comps, dest=dspell, cwd=cwd)))
     return out
 
 
-def job(E, version, name, comps, single=False, _mutants=None):
+def job(E, version, name, comps, single=False, dest="/jail/dest", cwd="/jail/cwd", _mutants=None):
     P = 16384
-    fs = AFS(cwd="/jail/cwd", order="reversed")
-    for d in ("/jail/dest", "/jail/sibling", "/abs", "/jail/src", "/jail/dest-old", "/jail/destX", "/jail/dest.bak"):
+    fs = AFS(cwd=cwd, order="reversed")
+    for d in ("/jail/dest", "/jail/sibling", "/abs", "/jail/src", "/jail/dest-old", "/jail/destX", "/jail/dest.bak", "/jail/cwd", cwd, "/x"):
         fs.mkdirs(d)
     fs.add("/jail/sibling/keep.bin", ("keep", 0), 9)
     s0 = E.int("s0", 0 if (version != 1 and not single) else 1, 2 * P)      # v2/hybrid: also an empty file on the hostile path
@@ -107,11 +114,12 @@ def job(E, version, name, comps, single=False, _mutants=None):
     snap = fs.snapshot()
     w = World(fs, mutants=_mutants)
     try:
-        a = w.mod("rebuild").Assembler(["/jail/t/m.torrent"], ["/jail/src"], "/jail/dest")
+        a = w.mod("rebuild").Assembler(["/jail/t/m.torrent"], ["/jail/src"], dest)
         a.assemble_torrents()
     except Exception as ex:  # noqa: BLE001
         # refusing a hostile metafile with an error is fine; what counts is what happened on disk before
         E.note("raised", "%s: %s" % (type(ex).__name__, ex))
+    dest_spelled = dest
     dest = "/jail/dest"
 
     def inside(p):
@@ -162,10 +170,15 @@ def replay(params, model, notes, workdir, seed):
     before = refconc.snapshot(workdir)
     mods = cr.real_torrentfile()
     old = os.getcwd()
-    os.chdir(os.path.join(jail, "cwd"))
+    cwd = params.get("cwd", "/jail/cwd")
+    os.makedirs(workdir + cwd, exist_ok=True)
+    before = refconc.snapshot(workdir)
+    os.chdir(workdir + cwd)
+    dspell = params.get("dest", "/jail/dest")
     try:
         with contextlib.redirect_stdout(io.StringIO()):
-            a = mods["torrentfile.rebuild"].Assembler([os.path.join(jail, "t", "m.torrent")], [os.path.join(jail, "src")], os.path.join(jail, "dest"))
+            a = mods["torrentfile.rebuild"].Assembler([os.path.join(jail, "t", "m.torrent")], [os.path.join(jail, "src")],
+                                                      dspell if not dspell.startswith("/") else workdir + dspell)
             a.assemble_torrents()
     except Exception:  # noqa: BLE001
         pass
